@@ -81,7 +81,7 @@ def run(ctx: Ctx, env):
     for kind, (via, slot) in sorted(seen.items()):
         if kind not in env.schema.classes:
             continue
-        has = H.resolve_visit(PRINTER, kind) is not None
+        has = H.resolve_visit(PRINTER, kind) is not None or H.generic_refuses(PRINTER)
         w = {"Geography": "geo.intersects(a, geography'POINT(1 2)')", "NamedParam": "ns.f(x=1) eq 1"}.get(kind)
         ctx.check(has, "R4.printer-handles-kind", kind, f"the printer reaches {kind} (from {via} at {slot}) but has no visit_{kind}: None is "
                   "concatenated into the text (TypeError) or printed", rm.rel, w)
